@@ -184,6 +184,7 @@ func init() {
 		cometPath + ".vIteF64":     func(fr *frame, a []value) value { return symIte(types.Float64, a[0], a[1], a[2]) },
 		cometPath + ".vIteInt":     func(fr *frame, a []value) value { return symIte(types.Int, a[0], a[1], a[2]) },
 		cometPath + ".vConcrete":   extIsConcrete,
+		cometPath + ".vTempDir":    func(fr *frame, a []value) value { d := "/vstore"; return d },
 		cometPath + ".vExpectLevel": func(fr *frame, a []value) value { return -1 },
 		cometPath + ".vUseLemma": func(fr *frame, a []value) value {
 			if a[0].(string) == "sqabs" {
